@@ -77,11 +77,15 @@ def run_variant(v):
                 return dict(v, result='LIMITATION' if p.returncode != 0 else 'OK', rc=p.returncode, report=next((l for l in out.split('\n') if ' rule ' in l or 'ANALYSIS-ERROR' in l), '')[:200])
             if v.get('expect', 'fire') == 'silent':
                 ok = p.returncode == 0
+            elif v.get('expect') == 'broken':
+                # a seeded change that a check reports by stopping with exit 2 (ANALYSIS-ERROR: an anchor shape is gone): "analysis broken" is
+                # never a silent pass, and it is what the seed's meta.json records; a proper VIOLATION is of course fine as well
+                ok = p.returncode in (1, 2) and ('ANALYSIS-ERROR' in out or 'VIOLATION property=' + v['property'] in out)
             else:
                 ok = p.returncode == 1 and 'VIOLATION property=' + v['property'] in out
                 if ok and v.get('names'):
                     ok = all(s in out for s in v['names'])
-            first = next((l for l in out.split('\n') if ' rule ' in l), '')[:260]
+            first = next((l for l in out.split('\n') if ' rule ' in l or 'ANALYSIS-ERROR' in l), '')[:260]
             return dict(v, result='OK' if ok else 'FAIL', rc=p.returncode, report=first)
         path = os.path.join(tree, v['file'])
         src = open(path, encoding='utf-8', errors='replace').read()
@@ -138,7 +142,8 @@ def seeded_variants():
         if os.path.exists(mp) and os.path.exists(os.path.join(sd, d, 'patch.diff')):
             meta = json.load(open(mp))
             for prop in meta.get('caught_by', [meta.get('property')]):
-                out.append({'id': 'SEED-%s-%s' % (d, prop), 'property': prop, 'patch': 'seeded/%s/patch.diff' % d, 'expect': 'fire',
+                broken = (meta.get('rules_reporting') or {}).get(prop) == ['exit 2']
+                out.append({'id': 'SEED-%s-%s' % (d, prop), 'property': prop, 'patch': 'seeded/%s/patch.diff' % d, 'expect': 'broken' if broken else 'fire',
                             'note': meta.get('what_it_needs_to_manifest', '')[:200]})
     return out
 
@@ -165,7 +170,7 @@ def main(argv):
     bad = [r for r in res if r['result'] not in ('OK', 'LIMITATION')]
     for r in res:
         print('%-7s %-6s %-28s %s' % (r['result'], r['expect'], r['id'], (r.get('report') or r.get('detail') or '')[:150].replace('\n', ' ')))
-    fire = [r for r in res if r['expect'] == 'fire']
+    fire = [r for r in res if r['expect'] in ('fire', 'broken')]
     sil = [r for r in res if r['expect'] == 'silent']
     lim = [r for r in res if r['expect'] == 'limitation']
     summary = {'mutants_killed': sum(r['result'] == 'OK' for r in fire), 'mutants_total': len(fire),
